@@ -69,7 +69,7 @@ class CTS_ECB(Mode):
             C.append(self._cipher.enc(b))
         if p>0:
             clast = C.pop()
-            b = self.iterblocks(M[n*self.len:])[0]
+            b = M[n*self.len:]
             C.append(self._cipher.enc(b+clast[p:]))
             C.append(clast[0:p])
         return b''.join(C)
@@ -82,7 +82,7 @@ class CTS_ECB(Mode):
             M.append(self._cipher.dec(P.read(self.len)))
         if p>0:
             mlast = M.pop()
-            M.append(self._cipher.dec(P.read(p)+mast[p:]))
+            M.append(self._cipher.dec(P.read(p)+mlast[p:]))
             M.append(mlast[:p])
         return b''.join(M)
 
@@ -128,7 +128,7 @@ class CTS_CBC(Mode):
             C.append(self._cipher.enc(x))
         if p>0:
             clast = C.pop()
-            b = self.iterblocks(M[n*self.len:]).ljust(self.len,b'\0')
+            b = M[n*self.len:].ljust(self.len,b'\0')
             x = self.xorstr(b,clast)
             C.append(self._cipher.enc(x))
             C.append(clast[:p])
@@ -147,7 +147,6 @@ class CTS_CBC(Mode):
             mprev = self._cipher.dec(clast+mend[p:])
             M.insert(0,self.xorstr(clast,mend[:p]))
             M.insert(0,self.xorstr(C[-l:],mprev))
-        C = self.IV+C
         while len(C)>l:
             c = C[-l:]
             C = C[:-l]
